@@ -50,7 +50,7 @@ func (r *yieldRewriter) rewriteRanges(block *ast.BlockStmt) {
 					do(cstNewStringIter, n.X)
 				case ty.Info()&types.IsInteger != 0:
 					// >= 1.22 only, but no release, need test
-					do(cstNewIntegerIter, n.X)
+					do(cstNewIntegerIter, r.typedRangeLimit(n.X))
 				}
 			case *types.Array:
 				// typing workaround for abstract generic array iter
@@ -70,6 +70,59 @@ func (r *yieldRewriter) rewriteRanges(block *ast.BlockStmt) {
 		}
 		return true
 	})
+}
+
+// typedRangeLimit keeps the type the range statement gives to a constant limit:
+// in 'var i int64; for i = range 3' the untyped 3 takes the type of i, whereas as
+// an argument of the generic NewIntegerIter it would default to int.
+func (r *yieldRewriter) typedRangeLimit(x ast.Expr) ast.Expr {
+	tv, ok := r.pkg.TypesInfo.Types[x]
+	if !ok || tv.Value == nil || tv.Type == nil || types.Identical(tv.Type, types.Typ[types.Int]) {
+		return x
+	}
+	if !r.untypedConst(x) {
+		return x // carries its type already
+	}
+	var tyExpr ast.Expr
+	switch ty := tv.Type.(type) {
+	case *types.Basic:
+		if ty.Info()&types.IsUntyped != 0 {
+			return x
+		}
+		tyExpr = X.Ident(ty.Name())
+	case *types.Named:
+		obj := ty.Obj()
+		if obj.Pkg() != r.pkg.Types || obj.Parent() != obj.Pkg().Scope() {
+			return x
+		}
+		tyExpr = X.Ident(obj.Name())
+	default:
+		return x
+	}
+	return X.Call(tyExpr, x)
+}
+
+// untypedConst reports whether the constant expression x is built from literals
+// and untyped named constants only.
+func (r *yieldRewriter) untypedConst(x ast.Expr) bool {
+	switch x := x.(type) {
+	case *ast.BasicLit:
+		return true
+	case *ast.ParenExpr:
+		return r.untypedConst(x.X)
+	case *ast.UnaryExpr:
+		return r.untypedConst(x.X)
+	case *ast.BinaryExpr:
+		return r.untypedConst(x.X) && r.untypedConst(x.Y)
+	case *ast.Ident:
+		c, ok := r.pkg.TypesInfo.Uses[x].(*types.Const)
+		if !ok {
+			return false
+		}
+		b, ok := c.Type().(*types.Basic)
+		return ok && b.Info()&types.IsUntyped != 0
+	}
+	return false
 }
 
 func (r *yieldRewriter) rewriteRangeToForIter(
